@@ -188,6 +188,17 @@ func (m *Model) CanRename(fd *MNode, fn string, td *MNode, tn string) bool {
 	if uint64(len(tn)) > m.Lim.NameMax {
 		return false
 	}
+	if src.IsDir() {
+		// a directory cannot be moved into itself or into a directory below it
+		for n, i := td, 0; i < 1<<16; n, i = n.Parent, i+1 {
+			if n == src {
+				return false
+			}
+			if n.Parent == n || n.Parent == nil {
+				break
+			}
+		}
+	}
 	if dst != nil {
 		if dst.Kind != src.Kind {
 			return false
